@@ -22,7 +22,7 @@ TARGETS = ['boltons.iterutils.backoff_iter', 'boltons.iterutils.backoff']
 BOUNDS = {
     'quick': {'exact_sequence': 'count 0..5 (symbolic), all real start/stop/factor', 'repeat': '5 values', 'jitter': 'count 0..3, all real jitter in [-1,1], all draws',
               'default_count': 'factor in {2, 10, 3/2} with stop/start up to factor^5, and every real factor >= 3/2 with stop/start up to (3/2)^3', 'ieee_step': 'one loop iteration from an arbitrary valid state, all finite doubles (cvc5 QF_FP)'},
-    'thorough': {'exact_sequence': 'count 0..8', 'default_count': 'up to factor^6'},
+    'thorough': {'exact_sequence': 'count 0..12', 'repeat': '12 values', 'jitter': 'count 0..6 (z3 answers unknown on the nonlinear obligations at 7)', 'default_count': 'up to factor^10; symbolic factor up to (3/2)^6'},
 }
 ASSUMPTIONS = ['reals-based obligations: arithmetic is exact', 'IEEE obligation: inputs finite, round-to-nearest-even', 'math.log(x, b): any function with b^n <= x <=> log >= n and b^n < x <=> log > n for integer n in the bound (exact logarithm contract); math.ceil exact']
 OUT_OF_CLAIM = ['NaN / infinite parameters', 'float rounding inside the jitter expression', 'accuracy of libm log beyond the stated contract', 'counts above the unrolling bound for the exact-sequence clause (the inductive IEEE step has no count bound)']
@@ -399,12 +399,12 @@ def ieee_step(pins, timeout):
 
 def obligations(tier):
     q = tier == 'quick'
-    K = 5 if q else 8
+    K = 5 if q else 12
     obs = [Ob('sequence_reals', timeout=300 if q else 1500, kind='direct', pins={'mode': 'count', 'K': K}, name='sequence_reals[count<=%d]' % K),
-           Ob('sequence_reals', timeout=300 if q else 1500, kind='direct', pins={'mode': 'repeat', 'K': 5 if q else 8}, name='sequence_reals[repeat]'),
-           Ob('sequence_reals', timeout=300 if q else 1500, kind='direct', pins={'mode': 'jitter', 'K': 3 if q else 5}, name='sequence_reals[jitter]'),
+           Ob('sequence_reals', timeout=300 if q else 1500, kind='direct', pins={'mode': 'repeat', 'K': 5 if q else 12}, name='sequence_reals[repeat]'),
+           Ob('sequence_reals', timeout=300 if q else 1500, kind='direct', pins={'mode': 'jitter', 'K': 3 if q else 6}, name='sequence_reals[jitter]'),
            Ob('ieee_step', timeout=120 if q else 600, kind='direct', name='ieee_step[cvc5]')]
     for fac in ([2, 1], [10, 1], [3, 2]):
-        obs.append(Ob('default_count', timeout=300 if q else 1500, kind='direct', pins={'factor': fac, 'K': 5 if q else 7}, name='default_count[factor=%d/%d]' % tuple(fac)))
-    obs.append(Ob('default_count', timeout=300 if q else 1500, kind='direct', pins={'factor': [3, 2], 'K': 3 if q else 4, 'symbolic_factor': 1}, name='default_count[factor>=3/2 symbolic]'))
+        obs.append(Ob('default_count', timeout=300 if q else 1500, kind='direct', pins={'factor': fac, 'K': 5 if q else 10}, name='default_count[factor=%d/%d]' % tuple(fac)))
+    obs.append(Ob('default_count', timeout=300 if q else 1500, kind='direct', pins={'factor': [3, 2], 'K': 3 if q else 6, 'symbolic_factor': 1}, name='default_count[factor>=3/2 symbolic]'))
     return obs
